@@ -1220,3 +1220,52 @@ func stripConvIface(v ssa.Value) ssa.Value {
 		}
 	}
 }
+
+// ---------------------------------------------------------------------------
+// R-FLOAT-FINITE (C06, C07, C08; added with fix F27): every Float that the reader produces is finite. The
+// function that converts the text of a float token returns a value without an error only under the fact
+// that math.IsInf of the converted value is false. Infinity (and the NaN that Inf - Inf gives) is not a
+// Prolog number: it is written as text that does not read back, the arithmetic raises float_overflow /
+// undefined for results, not for operands, and NaN compares equal to every float, so the standard order
+// stops being an order.
+
+func ruleFloatFinite(c *Ctx, r *Report) {
+	const rule = "R-FLOAT-FINITE"
+	fn := c.fn("float")
+	if fn == nil {
+		r.undecided(rule, "anchor:float", "-", "locate the float-literal conversion", "not found")
+		return
+	}
+	desc := "the reader's float conversion returns a value only when it is finite"
+	n := 0
+	eachInstr(fn, func(in ssa.Instruction) {
+		ret, ok := in.(*ssa.Return)
+		if !ok || len(ret.Results) != 2 {
+			return
+		}
+		if k, isConst := ret.Results[1].(*ssa.Const); !isConst || k.Value != nil {
+			return // an error return
+		}
+		n++
+		key := fmt.Sprintf("%s/return#%d", fname(fn), n)
+		finite := false
+		for f := range c.factsAt(in.Block()) {
+			call, ok := f.cond.(*ssa.Call)
+			if !ok || f.pol {
+				continue
+			}
+			if callee := call.Call.StaticCallee(); callee != nil && callee.Pkg != nil && callee.Pkg.Pkg.Path() == "math" && callee.Name() == "IsInf" {
+				finite = true
+			}
+		}
+		if finite {
+			r.ok(rule, key, c.at(in), desc, "returned under math.IsInf(value) == false", true)
+		} else {
+			r.bad(rule, fmt.Sprintf("%s/return", fname(fn)), c.at(in), desc, "a value is returned without a test for infinity: 1.0e999 reads as +Inf, and X - X then gives NaN")
+		}
+	})
+	if n == 0 {
+		r.bad(rule, fname(fn)+"/return", c.Pos(fn.Pos()), desc, "the conversion never returns a value")
+	}
+	r.analysed(rule, fname(fn))
+}
